@@ -408,9 +408,9 @@ pub fn property() -> Property {
         pre: None,
         post: None,
         parts: vec![
-            Box::new(Part { name: "materials", driver: Driver::Gen(mtrl_strategy, 120_000, 480_000), prop: prop_mtrl, exhaustive: false }),
-            Box::new(Part { name: "shader-packages", driver: Driver::Gen(shpk_strategy, 120_000, 480_000), prop: prop_shpk, exhaustive: false }),
-            Box::new(Part { name: "selectors", driver: Driver::Gen(selector_strategy, 400_000, 1_600_000), prop: prop_selector, exhaustive: false }),
+            Box::new(Part { name: "materials", driver: Driver::Gen(mtrl_strategy, 120_000, 1_920_000), prop: prop_mtrl, exhaustive: false }),
+            Box::new(Part { name: "shader-packages", driver: Driver::Gen(shpk_strategy, 120_000, 1_920_000), prop: prop_shpk, exhaustive: false }),
+            Box::new(Part { name: "selectors", driver: Driver::Gen(selector_strategy, 400_000, 6_400_000), prop: prop_selector, exhaustive: false }),
         ],
     }
 }
